@@ -8,7 +8,7 @@ from typing import Iterable
 
 from ..loader import AnalysisError
 from ..resolve import Resolver
-from .common import Flow, bind_args, calls_to, short, unparse
+from .common import Flow, bind_args, calls_to, def_value, short, unparse
 
 UA = "fast_ticc.containers.arguments.UserArguments"
 FRONT_ENDS = ("front_end.ticc_labels", "front_end.ticc_joint_labels")
@@ -38,11 +38,10 @@ def plumb(ctx, fields: Iterable[str], skip=()):
         arg = ba.get("user_args")
         feeding = None
         if isinstance(arg, ast.Name):
-            d = fl.sole_def(arg.id, fl.at(arg))
-            if d is not None and isinstance(d.ast, ast.Assign):
-                for c in ctors:
-                    if d.ast.value is c.node:
-                        feeding = c
+            v = fl.resolve_copies(arg)
+            for c in ctors:
+                if v is c.node:
+                    feeding = c
         elif isinstance(arg, ast.Call):
             for c in ctors:
                 if c.node is arg:
